@@ -87,6 +87,7 @@ package bytes
 //@ func (Bytes).ParseUint()
 //@   props C07 C10
 //@   nopanic
+//@   ensures result1 != nil ==> !libErr(result1)
 //@   ensures result1 == nil ==> len(b) > 0 && (forall k :: 0 <= k && k < len(b) ==> isDigit(b[k]))
 //@   ensures (len(b) == 0 || (exists k :: 0 <= k && k < len(b) && !isDigit(b[k]))) ==> result1 != nil
 //@   ensures (len(b) > 0 && (forall k :: 0 <= k && k < len(b) ==> isDigit(b[k]))) ==> result1 == nil
@@ -98,6 +99,7 @@ package bytes
 //@   requires len(b) > 0
 //@   nopanic
 //@   defines result1 == nil ==> result0 == intValOf(b)
+//@   ensures result1 != nil ==> !libErr(result1)
 
 //@ func (Bytes).IsUserTypeName()
 //@   props C03 C07
